@@ -25,7 +25,8 @@ class LoopInv:
     decreases: optional variant function (int), proved to decrease and stay >= 0
     """
 
-    def __init__(self, inv, vars=None, index="i", decreases=None, modifies=None, seq=None):
+    def __init__(self, inv, vars=None, index="i", decreases=None, modifies=None, seq=None, step=None):
+        self.step = [] if step is None else (step if isinstance(step, (list, tuple)) else [step])
         self.inv = inv if isinstance(inv, (list, tuple)) else [inv]
         self.vars = vars or {}
         self.index = index
